@@ -25,6 +25,8 @@ CONSTANTS
   AllowCancel = TRUE
   AllowPanic = FALSE
   ThreadLevel = TRUE
+  HoldAndWait = TRUE
+  UnwindDrops = FALSE
 CHECK_DEADLOCK FALSE
 INVARIANTS TypeOK UsersExact SizeExact CreatingExact PermitsCover NoWaiterWithFreePermit Inv_C01 Inv_C02a Inv_C02b Inv_C02c Inv_C09b Inv_C03 Inv_C04a Inv_C06a Inv_C06b Inv_C07c Inv_C11a Inv_C11b Inv_C11noshrink Inv_C13
 PROPERTIES Act_C06c Act_C07a Act_C07b Act_C08b
